@@ -110,6 +110,9 @@ pub struct Scn {
     /// a slow host: answers to the orders the victims left unanswered arrive during the battery
     #[serde(default)]
     pub late_answers: bool,
+    /// the first thing run after the victims is Interpreter::eval_bytecode (third entry point)
+    #[serde(default)]
+    pub probe_eval_bytecode_first: bool,
 }
 
 pub struct C11;
@@ -221,7 +224,12 @@ fn normalise_traffic(t: &[String]) -> Vec<String> {
     out
 }
 
+/// What the simplest entry point (Interpreter::eval_bytecode) sees right after the victims.
+const NAMES_PROBE: &str = "[typeof vn0, typeof va0, typeof vo0, typeof vs0, typeof vmain, typeof __log, typeof __show, typeof vr, typeof vK, typeof vB, typeof un0, typeof umain, typeof uK, typeof inner].join(\",\")";
+
 struct ObsResult {
+    /// result of NAMES_PROBE through eval_bytecode, run before any other observer (when enabled)
+    bytecode_probe: String,
     battery: Outcome,
     observer: Outcome,
     import_ok: Outcome,
@@ -244,6 +252,15 @@ pub fn run_to_end(h: &mut Host, spec: crate::host::RunSpec) -> Outcome {
 
 fn observers(h: &mut Host, scn: &Scn, late: &[u64]) -> ObsResult {
     let depth_before = h.interp.call_depth();
+    let bytecode_probe = if scn.probe_eval_bytecode_first {
+        tsrun::verif::set_fuel(Some(scn.fuel));
+        match h.interp.eval_bytecode(NAMES_PROBE) {
+            Ok(v) => crate::host::show_value(&v),
+            Err(e) => format!("error:{:?}", crate::host::err_kind_msg(&e)),
+        }
+    } else {
+        String::new()
+    };
     // observers that have to wait for host-provided modules (script or module flavour, eval or step)
     let importing = |h: &mut Host, src: &str, path: &str| -> Outcome {
         let mut s = battery_spec(scn.fuel);
@@ -290,6 +307,7 @@ fn observers(h: &mut Host, scn: &Scn, late: &[u64]) -> ObsResult {
     h.interp.collect();
     let q = h.interp.verif_quiescence();
     ObsResult {
+        bytecode_probe,
         battery,
         observer,
         import_ok: import_ok.unwrap_or_default(),
@@ -474,6 +492,7 @@ impl Check for C11 {
             import_observers_as_modules: rng.chance(0.5),
             import_observers_eval: rng.chance(0.3),
             late_answers: rng.chance(0.5),
+            probe_eval_bytecode_first: rng.chance(0.4),
         }
     }
 
@@ -616,7 +635,9 @@ impl Check for C11 {
                 // state of a dead run may sit there until the next prepare(); only leaks INTO a run count.
                 rep.bump("note_call_depth_nonzero_before_next_prepare", 1);
             }
-            if fresh.battery.result != reused.battery.result || fresh.battery.console != reused.battery.console {
+            if fresh.bytecode_probe != reused.bytecode_probe {
+                rep.fail(mk("eval_bytecode_probe_differs_from_fresh", "Interpreter::eval_bytecode right after the victims", fresh.bytecode_probe.clone(), reused.bytecode_probe.clone()));
+            } else if fresh.battery.result != reused.battery.result || fresh.battery.console != reused.battery.console {
                 rep.fail(mk("battery_observer_differs_from_fresh", "battery", fresh.battery.result.clone(), reused.battery.result.clone()));
             } else if normalise_traffic(&fresh.battery.traffic) != normalise_traffic(&reused.battery.traffic) {
                 rep.fail(mk(
